@@ -493,3 +493,4 @@ func numTS(b []byte, resumeOffset int, state ConsumeNumberState) int {
 //@ ensures ok-n: err == nil ==> n == numEndPos(b, 0, nInit)
 //@ ensures eof-iff: isUnexpectedEOF(err) == (!numAcc(numEndState(b, 0, nInit)) && numEndPos(b, 0, nInit) == len(b))
 //@ ensures bad-n: err != nil && !isUnexpectedEOF(err) ==> n == numEndPos(b, 0, nInit) && n < len(b)
+//@ ensures range: 0 <= n && n <= len(b) && (err == nil ==> n >= 1)
